@@ -528,8 +528,11 @@ EXPLANATION = (
     'checked: RF in exactly one handler, shutil.move only with metadata/properties excluded, copy handler copies '
     'properties/metadata of the included kinds, move mode adds a count=1 metadata ringbuffer. R4: start() replays '
     'existing files to every handler. R5: the already-mirrored test compares content (filecmp shallow=False) and no '
-    'mirror function swallows FileExistsError on the staging name. Does NOT decide byte identity or crash points inside '
-    'shutil.move.')
+    'mirror function swallows FileExistsError on the staging name. R4 also: the handlers of the mirror are dispatched in '
+    'list order - one composite handler built from self.event_handlers is scheduled, its dispatch is a plain loop over '
+    'that list; scheduling the handlers one by one is reported (the observer keeps them in a set). R5 also: when a mirror'
+    ' function can create hard links every content comparison is the right operand of `os.path.samefile(src, dest) or '
+    '...`. Does NOT decide byte identity or crash points inside shutil.move.')
 TECHNIQUE = ('Python ast; complete operation table of mirror_to_dest; CFG ordering; abstract execution of the constructor over all option rows; regular-language emptiness for tmp. names')
 ASSUMPTIONS = ["os.rename within the destination directory is atomic", "shutil.copy2/os.link produce a complete file before returning"]
 FILES = [MR, "python/digital_rf/list_drf.py", "python/digital_rf/ringbuffer.py"]
